@@ -4,8 +4,8 @@
   leave behind, and the table `set_known_values` produces.
 -/
 import ICG.Model.Env
-namespace ICG
-open Table
+namespace ICG.Env
+open ICG Table
 
 variable {α : Type}
 
@@ -138,7 +138,6 @@ end tables
 
 /-! ### `step` / `unstep` / `reset`: the successful path and the failing ones -/
 
-namespace Env
 section core
 variable [Zero α] [Neg α] [Sub α] [DecidableEq α]
 variable (compute : Table α → Except Err (Table α)) (gap : Table α → Except Err α)
@@ -299,5 +298,4 @@ theorem reset_index_error {e : Env α} {f g : Nat → α} (h : ∃ c ∈ e.initi
   simp [reset, hall]
 
 end core
-end Env
-end ICG
+end ICG.Env
